@@ -67,10 +67,15 @@ def _expr_args(expr: Expr) -> dict[str, str | Expr]:
             try:
                 args[argument.name] = argument.value  # type: ignore[union-attr]
             except AttributeError:
-                # Argument is a unpacked variable.
+                # Argument is an unpacked dictionary display, or an unpacked variable
+                # (looked up from the scope its name was written in, however the called function is spelled).
+                unpacked = argument.value  # type: ignore[union-attr]
+                if isinstance(unpacked, ExprDict):
+                    args.update(_expr_args(unpacked))
+                    continue
                 with suppress(Exception):
-                    collection = expr.function.parent.modules_collection  # type: ignore[attr-defined]
-                    var = collection[argument.value.canonical_path]  # type: ignore[union-attr]
+                    collection = unpacked.parent.modules_collection  # type: ignore[union-attr]
+                    var = collection[unpacked.canonical_path]  # type: ignore[union-attr]
                     args.update(_expr_args(var.value))
     elif isinstance(expr, ExprDict):
         args.update({ast.literal_eval(str(key)): value for key, value in zip(expr.keys, expr.values)})
